@@ -124,6 +124,23 @@ Theorem reorder_no_deadlock : forall (T R : Type) (fetch : list T -> list R) (p 
 Proof. intros T R. exact reorder_no_deadlock_proof. Qed.
 Print Assumptions reorder_no_deadlock.
 
+(* No time-out is ever dropped. The time-out goroutine WAITS for the flush mutex (its flush step is disabled while another flusher
+   holds it - reorder_no_deadlock says that flusher can always go on - and is never skipped). m_mark is the number of inputs accepted
+   when the timer last expired. Whenever the fetcher is at rest with no expiry pending, all those inputs have been handed out in
+   batches (so by reorder_in_order their results have been emitted): a pending batch whose timer expired is flushed once the lock
+   is free, without any further Add or Flush. *)
+Theorem expired_batch_flushed : forall (T R : Type) (fetch : list T -> list R) (p : rparams),
+  rp_fixed p = true ->
+  forall (sc : list (aop T)) (acts : list action),
+  let ms := m_run fetch p acts (m_init sc) in
+  let s := rm ms in
+  s = run fetch p acts (r_init sc) /\
+  (quiescent s = true -> inflight s = 0 ->
+     m_mark ms <= length (concat (flushed s)) /\
+     firstn (m_mark ms) (added s) = firstn (m_mark ms) (concat (flushed s))).
+Proof. intros T R. exact expired_batch_flushed_proof. Qed.
+Print Assumptions expired_batch_flushed.
+
 (* ---- the code before the repair (rp_fixed = false) does not have the property: D19 ---- *)
 
 (* (i) a time-out flusher overtaken between Flush and Reserve: Output is not a prefix of the results in input order.
@@ -167,3 +184,9 @@ Example late_callback_regime_reachable :
   fst r = [XE EAdded; XExpired (Some 0%Z); XE EAdded; XE (EFlushed (-1)%Z [1%N; 2%N]); XE EAdded; XDelivered (Some 0%Z);
            XE (EFlushed 0%Z [])] /\ batch (bx_b (snd r)) = [3%N].
 Proof. vm_compute. split; reflexivity. Qed.
+Example expired_batch_flushed_nonvacuous :
+  let ms := m_run (map (fun x : N => x)) fixed_params
+                  [AAdder; AAdder; ATimerFire; ATimeout; ATimeout; ATimeout; ATimeout; ATimeout; ATimeout; AComplete 0; ADrain 0]
+                  (m_init [AddOp 7%N]) in
+  quiescent (rm ms) = true /\ inflight (rm ms) = 0%nat /\ m_mark ms = 1%nat /\ out (rm ms) = [7%N].
+Proof. vm_compute. repeat split. Qed.
